@@ -253,6 +253,27 @@ Proof.
 Qed.
 Print Assumptions C18_multi_compile_per_name.
 
+(* ---- statistics feeding a logbook, as the packaged algorithms do ----
+   logbook.record( **gen, **mstats.compile(pop) ): what MultiStatistics.compile returns meets the uniformity
+   hypothesis (distinct statistics names, distinct function names, generation fields named differently),
+   so after any number of generations the logbook and each chapter hold one record per generation *)
+Theorem C18_multistats_history_uniform : forall (A B : Type) (m : mstats A B Z) (gens : list (entry * list A)),
+  Forall (fun ns => NoDup (map fst (s_funs (snd ns)))) m ->
+  Forall (fun gd => NoDup (map fst (fst gd) ++ map fst m)) gens ->
+  uniform (Sh (map (fun ns => (fst ns, Sh [])) m))
+          (map (fun gd => ORecord (compiled_infos (fst gd) (ms_compile m (snd gd)))) gens).
+Proof. exact @multistats_history_uniform. Qed.
+Print Assumptions C18_multistats_history_uniform.
+
+Theorem C18_generations_logged : forall (A B : Type) (m : mstats A B Z) (gens : list (entry * list A)) path c,
+  Forall (fun ns => NoDup (map fst (s_funs (snd ns)))) m ->
+  Forall (fun gd => NoDup (map fst (fst gd) ++ map fst m)) gens ->
+  let h := map (fun gd => ORecord (compiled_infos (fst gd) (ms_compile m (snd gd)))) gens in
+  let l := st_lb (final init_state h) in
+  ids l = seq 0 (length gens) /\ (find_path path l = Some c -> ids c = seq 0 (length gens)).
+Proof. exact @generations_logged. Qed.
+Print Assumptions C18_generations_logged.
+
 (* ---- non-vacuity: a history with two chapters that meets [uniform], with what it produces ---- *)
 Definition ex_shape : shape := Sh [(10, Sh []); (11, Sh [])].
 Definition ex_rec (i : Z) : dict :=
